@@ -243,7 +243,7 @@ root("twobases",
      [del_cells("B1", "rate"), remove_bases("Sub", "B1"), add_bases("Sub", "B1"),
       new_cells("B1", "rate", L + "30 * x"), set_formula("B1", "rate", L + "40 * x"),
       set_formula("B2", "rate", L + "50 * x"), set_formula("Sub", "rate", L + "60 * x"), del_cells("Sub", "rate"),
-      set_input("B1", "rate", [1], 7), rename_cells("B1", "rate", "rate2")],
+      set_input("B1", "rate", [1], 7), rename_cells("B1", "rate", "rate2"), {"op": "sort_cells", "sp": "Sub"}],
      [q("Sub", "total", 1), q("O", "view", 1)])
 
 # 13. a chain through two uncached levels to an attribute-path / by-name reference, caller in another space
@@ -281,7 +281,7 @@ root("inheritem",
       set_input("Base", "foo", [], 50), set_input("Sub", "foo", [], 51), cl("clear_all", "Base", "foo"),
       rename_cells("Base", "foo", "foo2"), del_cells("Base", "bar"), new_cells("Base", "baz", L + "x"),
       remove_bases("Sub", "Base"), add_bases("Sub", "Base"), set_param("Sub", "lambda i, j=0: None"),
-      {"op": "clear_items", "sp": "Sub"}],
+      {"op": "clear_items", "sp": "Sub"}, {"op": "sort_cells", "sp": "Base"}],
      [q("Sub[1]", "foo"), q("Sub[1]", "bar", 1), q("Base", "foo")])
 
 
